@@ -511,10 +511,21 @@ fn workers_round(out: &mut Out, r: &mut Rng, nworkers: usize, nclients: usize, p
                         }
                     }
                 }
-                // late replies
+                // late replies: 300 ms of silence ends the collection when nothing is missing; while a reply is
+                // still missing keep listening for up to 10 s (a loaded machine delays replies — that is not the
+                // server losing a request, and "no response" must not be concluded from a short wait)
                 sock.set_read_timeout(Some(Duration::from_millis(300))).unwrap();
-                while let Ok((n, _)) = sock.recv_from(&mut buf) {
-                    attribute(&mut pairs, &mut extra, buf[..n].to_vec());
+                let late_start = std::time::Instant::now();
+                loop {
+                    match sock.recv_from(&mut buf) {
+                        Ok((n, _)) => attribute(&mut pairs, &mut extra, buf[..n].to_vec()),
+                        Err(_) => {
+                            let missing = pairs.iter().any(|(_, rs)| rs.is_empty());
+                            if !missing || late_start.elapsed() > Duration::from_secs(10) {
+                                break;
+                            }
+                        }
+                    }
                 }
                 // more than one reply for a request counts as extra
                 for (_, rs) in pairs.iter_mut() {
@@ -599,10 +610,26 @@ fn shutdown_case(out: &mut Out, r: &mut Rng, nworkers: usize, client_stats: bool
     let addr = sp.addr();
     let stop = Arc::new(AtomicBool::new(false));
     let mut handles = vec![];
-    let nthreads = match regime { "idle" => 0, "load" => 4, "load-stats" => 4 * nworkers.max(1), _ => 6 };
+    let nthreads = match regime { "idle" => 0, "load" => 4, "load-stats" => 4 * nworkers.max(1), "junk" => 2 * nworkers.max(1), _ => 6 };
     for t in 0..nthreads {
         let stop = stop.clone();
         let flood = regime == "flood";
+        if regime == "junk" {
+            // the workers see ONLY datagrams they must drop (never a valid request) before the signal: statistics
+            // with requests but no responses, no reply ever sent
+            let s = r.next();
+            handles.push(std::thread::spawn(move || {
+                let mut rr = Rng::new(s ^ t as u64);
+                let sock = UdpSocket::bind("127.0.0.1:0").unwrap();
+                while !stop.load(Ordering::Relaxed) {
+                    let d = match rr.below(4) { 0 => vec![0u8; 100], 1 => rr.bytes(1024), 2 => { let mut v = b"ROUGHTIM".to_vec(); v.extend(rr.bytes(1100)); v } _ => rr.bytes(7) };
+                    let _ = sock.send_to(&d, addr);
+                    std::thread::sleep(Duration::from_millis(2));
+                }
+                vec![]
+            }));
+            continue;
+        }
         let s = r.next();
         handles.push(std::thread::spawn(move || {
             let mut rr = Rng::new(s ^ t as u64);
@@ -694,6 +721,14 @@ pub fn run_shutdown(ctx: &Ctx) {
                 let stats = i % 4 < 2;
                 shutdown_case(&mut out, &mut r, w, stats, sig, regime, d + 30);
             }
+        }
+    }
+    // workers that have only ever seen invalid datagrams (requests recorded, nothing sent)
+    for (k, &w) in [1usize, 4, 2, 16].iter().enumerate() {
+        if !ctx.thorough && k >= 2 { continue; }
+        for stats in [false, true] {
+            let sig = if (k + stats as usize) % 2 == 0 { libc::SIGTERM } else { libc::SIGINT };
+            shutdown_case(&mut out, &mut r, w, stats, sig, "junk", 300 + 150 * k as u64);
         }
     }
     // statistics back-pressure: per-client statistics with a 1 s status interval under load for a few seconds
